@@ -155,6 +155,13 @@ func guardInfoFor(c *Config) *guardInfo {
 						w.at, w.write, w.what = cw.in, true, cw.what
 						g.accesses = append(g.accesses, w)
 					}
+					// content reads through the loaded map / slice: the header was read under the lock, the
+					// elements are read where the value is used
+					for _, cr := range contentReads(x) {
+						r := acc
+						r.at, r.what = cr.in, cr.what
+						g.accesses = append(g.accesses, r)
+					}
 				case ssa.CallInstruction:
 					callee := calleeFunc(x)
 					if callee != nil && callee.Pkg() != nil && callee.Pkg().Path() == "sync/atomic" {
@@ -243,6 +250,54 @@ func contentWrites(v ssa.Value) []cwrite {
 						}
 					case "clear":
 						out = append(out, cwrite{x, "clear"})
+					}
+				}
+			}
+		}
+	}
+	walk(v)
+	return out
+}
+
+// contentReads finds reads of the contents of a loaded map / slice value (element reads, lookups, ranges, copies out).
+func contentReads(v ssa.Value) []cwrite {
+	var out []cwrite
+	seen := map[ssa.Value]bool{}
+	var walk func(v ssa.Value)
+	walk = func(v ssa.Value) {
+		if seen[v] {
+			return
+		}
+		seen[v] = true
+		for _, u := range referrersOf(v) {
+			switch x := u.(type) {
+			case *ssa.Lookup:
+				if x.X == v {
+					out = append(out, cwrite{x, "map lookup"})
+				}
+			case *ssa.Range:
+				out = append(out, cwrite{x, "map range"})
+			case *ssa.Slice:
+				walk(x)
+			case *ssa.ChangeType:
+				walk(x)
+			case *ssa.Convert:
+				if b, ok := x.Type().Underlying().(*types.Basic); ok && b.Info()&types.IsString != 0 {
+					out = append(out, cwrite{x, "conversion to string"})
+				}
+			case *ssa.IndexAddr:
+				for _, r := range referrersOf(x) {
+					if ld, ok := r.(*ssa.UnOp); ok && ld.Op == token.MUL {
+						out = append(out, cwrite{ld, "element read"})
+					}
+				}
+			case *ssa.Call:
+				if b, ok := x.Call.Value.(*ssa.Builtin); ok {
+					switch b.Name() {
+					case "copy", "append":
+						if len(x.Call.Args) > 1 && x.Call.Args[1] == v {
+							out = append(out, cwrite{x, "copy out of"})
+						}
 					}
 				}
 			}
